@@ -994,7 +994,7 @@ def instances(tier, seed):
         for relu_shift in ((27, 33) if quick else (25, 27, 29, 31, 32, 33, 35)):
             for out_shift in ((34, 37) if quick else (32, 34, 36, 37)):
                 # quick: inputs (code - zero point) of -60, +3..5, +40, +130 with the enumerated input zero point qmin + 125
-                for code in ((qmin + 65, qmin + 128 + seed % 3, qmin + 165, qmin + 255) if quick else range(qmin, qmin + 256, 5)):
+                for code in ((qmin + 65, qmin + 128 + seed % 3, qmin + 165, qmin + 255) if quick else range(qmin + seed % 17, qmin + 256, 17)):
                     for which, mult, zptypes in fixes:
                         for zptype in zptypes:
                             zpi = qmin + 125
